@@ -226,7 +226,7 @@ def generate():
     L = []
     L.append("(* GENERATED by gen/c02_render.py from %s and %s - do not edit. *)" % (BASE, SPHINX))
     L.append("From Coq Require Import List NArith.")
-    L.append("From MV Require Import Base.PyStr Doc.Str.")
+    L.append("From MV Require Import Base.PyStr.\nFrom MV Require Import Doc.Str.")
     L.append("Import ListNotations.")
     L.append("Open Scope N_scope.")
     L.append("")
